@@ -8,8 +8,10 @@ ENGINES = {
     "seqx": ("explicit-state BFS over operation sequences applied to the real object next to a reference model", ["C07", "C18"]),
     "codecx": ("explicit-state / cut-bounded exploration of the real ws::Codec and h1::Codec over all segmentations", ["C14"]),
     "h2x": ("real HTTP/2 server connection against an h2 client over an in-memory pipe; exploration of peer flow-control schedules", ["C08"]),
-    "routex": ("bounded-exhaustive enumeration of route tables / patterns x paths against a reference router / matcher", ["C09", "C10"]),
-    "webx": ("bounded-exhaustive histories, bodies x chunkings x limits x codings, URL-token strings and range grids through real actix-web services", ["C11", "C12", "C13", "C16"]),
+    "routex": ("bounded-exhaustive enumeration of patterns x paths against a reference matcher; percent-decoder over all short byte strings", ["C10"]),
+    "appx": ("bounded-exhaustive enumeration of route tables (scopes, resources, guards, defaults, data) x request paths against a reference router, through the public App builder", ["C09"]),
+    "webx": ("bounded-exhaustive request histories through one service instance (pool reuse) and URL-token strings x range grids through actix-files", ["C11", "C16"]),
+    "bodyx": ("bounded-exhaustive bodies x chunkings x limits x codings through the real extractors and the Compress/Decompress middleware", ["C12", "C13"]),
     "mpx": ("real Multipart parser under scripted chunk streams: every chunking / truncation point with a wake-driven executor", ["C15"]),
     "awcx": ("real awc::Client over an in-memory scripted connector: close at every byte offset, cuts, request sequences", ["C17"]),
     "panicx": ("bounded-exhaustive hostile inputs (token strings, single/double mutations) into every peer-facing parser with catch_unwind", ["C19"]),
